@@ -31,8 +31,9 @@ Inductive cmd := Push (k : nat) | Pop (k : nat) | Len (k : nat) | Del (k : nat) 
 | PushX (k : nat).   (* RPUSHX: a writer that does not create the key *)
 
 (* a metadata record: the value, its RWMutex, and two ghost counters (acknowledged elements in / out) *)
-Record rcd := { r_val : Z; r_w : option nat; r_rd : list nat; r_in : Z; r_out : Z }.
-Definition rcd_new : rcd := {| r_val := 0; r_w := None; r_rd := []; r_in := 0; r_out := 0 |}.
+(* r_unl: metadata.unlinked - set, under the record's lock, when the record is removed from the index *)
+Record rcd := { r_val : Z; r_w : option nat; r_rd : list nat; r_in : Z; r_out : Z; r_unl : bool }.
+Definition rcd_new : rcd := {| r_val := 0; r_w := None; r_rd := []; r_in := 0; r_out := 0; r_unl := false |}.
 
 Inductive pc :=
 | PStart                                  (* POINT (initial) *)
@@ -70,13 +71,13 @@ Definition lock_free (excl : bool) (x : rcd) : bool :=
   | None => if excl then match r_rd x with [] => true | _ => false end else true
   end.
 Definition acquire (t : nat) (excl : bool) (x : rcd) : rcd :=
-  if excl then {| r_val := r_val x; r_w := Some t; r_rd := r_rd x; r_in := r_in x; r_out := r_out x |}
-  else {| r_val := r_val x; r_w := r_w x; r_rd := t :: r_rd x; r_in := r_in x; r_out := r_out x |}.
+  if excl then {| r_val := r_val x; r_w := Some t; r_rd := r_rd x; r_in := r_in x; r_out := r_out x; r_unl := r_unl x |}
+  else {| r_val := r_val x; r_w := r_w x; r_rd := t :: r_rd x; r_in := r_in x; r_out := r_out x; r_unl := r_unl x |}.
 Definition release (t : nat) (excl : bool) (x : rcd) : rcd :=
-  if excl then {| r_val := r_val x; r_w := None; r_rd := r_rd x; r_in := r_in x; r_out := r_out x |}
-  else {| r_val := r_val x; r_w := r_w x; r_rd := filter (fun u => negb (Nat.eqb u t)) (r_rd x); r_in := r_in x; r_out := r_out x |}.
+  if excl then {| r_val := r_val x; r_w := None; r_rd := r_rd x; r_in := r_in x; r_out := r_out x; r_unl := r_unl x |}
+  else {| r_val := r_val x; r_w := r_w x; r_rd := filter (fun u => negb (Nat.eqb u t)) (r_rd x); r_in := r_in x; r_out := r_out x; r_unl := r_unl x |}.
 Definition with_val (x : rcd) (v din dout : Z) : rcd :=
-  {| r_val := v; r_w := r_w x; r_rd := r_rd x; r_in := r_in x + din; r_out := r_out x + dout |}.
+  {| r_val := v; r_w := r_w x; r_rd := r_rd x; r_in := r_in x + din; r_out := r_out x + dout; r_unl := r_unl x |}.
 
 (* commit(): release everything the thread holds, reply *)
 Definition commit (t : nat) (x : thread) (reply : Z) (s : cstate) : cstate :=
@@ -90,18 +91,20 @@ Definition writer_waiting (r : nat) (s : cstate) : bool :=
                      | _ => false
                      end) (ths s).
 (* Lock() / RLock() on record r *)
-Definition try_lock (t : nat) (x : thread) (r : nat) (sec : bool) (s : cstate) : cstate :=
-  let excl := negb (is_reader (t_cmd x)) in
-  if (if excl then lock_free true (get_rec r s) else lock_free false (get_rec r s) && negb (writer_waiting r s))
-  then set_th t {| t_cmd := t_cmd x; t_pc := PLocked r sec; t_held := (r, excl) :: t_held x |}
-              (set_rec r (acquire t excl (get_rec r s)) s)
-  else set_th t (with_pc x (PWait r sec)) s.
-
 Definition lookup_next (t : nat) (x : thread) (second : bool) (s : cstate) : cstate :=
   match nget (key_of (t_cmd x) second) (ix s) with
   | Some r => set_th t (with_pc x (PHit r second)) s
   | None => set_th t (with_pc x (PMiss second)) s
   end.
+(* tx.go lockKey / rLockKey: once the lock is obtained the record is validated - if it was unlinked
+   while the thread waited, the lock is given back and the key is looked up again *)
+Definition try_lock (t : nat) (x : thread) (r : nat) (sec : bool) (s : cstate) : cstate :=
+  let excl := negb (is_reader (t_cmd x)) in
+  if (if excl then lock_free true (get_rec r s) else lock_free false (get_rec r s) && negb (writer_waiting r s))
+  then if r_unl (get_rec r s) then lookup_next t x sec s
+       else set_th t {| t_cmd := t_cmd x; t_pc := PLocked r sec; t_held := (r, excl) :: t_held x |}
+              (set_rec r (acquire t excl (get_rec r s)) s)
+  else set_th t (with_pc x (PWait r sec)) s.
 
 (* one micro-step of thread t; None = finished.  A thread inside Lock() (PWait) retries. *)
 Definition mstep (t : nat) (s : cstate) : option cstate :=
@@ -120,10 +123,17 @@ Definition mstep (t : nat) (s : cstate) : option cstate :=
           | _ => Some (set_th t (with_pc x (PLoaded r (r_val (get_rec r s)) sec)) s)
           end
       | PMiss sec =>
+          (* tx.go newKey: under the index lock, a key that has appeared since the lookup is used
+             (back to lockKey); otherwise the new record is locked before it is published *)
           if creates c sec
-          then let r := nextr s in
-               Some (set_th t (with_pc x (PPub r sec))
-                       {| ix := nset (key_of c sec) r (ix s); recs := nset r rcd_new (recs s); nextr := S r; ths := ths s |})
+          then match nget (key_of c sec) (ix s) with
+               | Some _ => Some (lookup_next t x sec s)
+               | None =>
+                   let r := nextr s in
+                   Some (set_th t {| t_cmd := c; t_pc := PPub r sec; t_held := (r, true) :: t_held x |}
+                           {| ix := nset (key_of c sec) r (ix s); recs := nset r (acquire t true rcd_new) (recs s);
+                              nextr := S r; ths := ths s |})
+               end
           else Some (commit t x 0 s)
       | PPub r sec => Some (set_th t (with_pc x (PLoaded r (r_val (get_rec r s)) sec)) s)
       | PLoaded r tmp sec =>
@@ -150,7 +160,13 @@ Definition mstep (t : nat) (s : cstate) : option cstate :=
           | _ => None
           end
       | PUnlink r popped =>
-          let s1 := set_ix (ndel (key_of c false) (ix s)) s in
+          (* tx.go delKey: the record the index holds for the key is flagged, then removed *)
+          let s0 := match nget (key_of c false) (ix s) with
+                    | Some r0 => let y := get_rec r0 s in
+                                 set_rec r0 {| r_val := r_val y; r_w := r_w y; r_rd := r_rd y; r_in := r_in y; r_out := r_out y; r_unl := true |} s
+                    | None => s
+                    end in
+          let s1 := set_ix (ndel (key_of c false) (ix s0)) s0 in
           match c with
           | Move _ _ => Some (lookup_next t x true s1)
           | _ => Some (commit t x (if popped then 1 else 0) s1)
@@ -201,7 +217,7 @@ Definition grant (t : nat) (s : cstate) : cstate :=
   end.
 
 Definition init_state (vals : list (nat * Z)) (cmds : list cmd) : cstate :=
-  let recs0 := map (fun kv => (fst kv, {| r_val := snd kv; r_w := None; r_rd := []; r_in := 0; r_out := 0 |})) vals in
+  let recs0 := map (fun kv => (fst kv, {| r_val := snd kv; r_w := None; r_rd := []; r_in := 0; r_out := 0; r_unl := false |})) vals in
   {| ix := map (fun kv => (fst kv, fst kv)) vals;
      recs := recs0;
      nextr := S (fold_left Nat.max (map fst vals) 0%nat);
